@@ -60,6 +60,7 @@ func (p *defaultPolicy[V]) processItems() {
 	for {
 		select {
 		case items := <-p.itemsCh:
+			verifPoint(vpPolRecv, uint64(len(items)), 0)
 			p.Lock()
 			p.admit.Push(items)
 			p.Unlock()
